@@ -7,7 +7,7 @@ import gen_run
 import run_cluster as R
 
 PROP = "C03"
-CONE = sorted(set(K.MODEL_FILES + E.MODEL_FILES + R.MODEL_FILES + T.MODEL_FILES + ["Proofs/CtorProofs.v", "Gen/Generated.v", "Proofs/SkelPinInv.v", "Proofs/CheckerFrame.v",
+CONE = sorted(set(K.MODEL_FILES + E.MODEL_FILES + R.MODEL_FILES + T.MODEL_FILES + ["Proofs/CtorProofs.v", "Gen/Generated.v", "Proofs/SkelPinInv.v", "Proofs/CheckerFrame.v", "Proofs/CheckerProps.v", "Proofs/CheckerAfter.v",
                                                      "Proofs/ElabSelect.v", "Props/C03.v"]))
 RULE_E = ("member selection: definition histories as for C17 (classes with / without DBC, single and multiple bases, "
           "members f/g/p/__init__/__new__/__setattr__/_priv/__repr__/__eq__ of every kind, invariants with check_on "
